@@ -222,6 +222,7 @@ class _OrbitCorrectionService(_DynamicsServiceBase):
         """
         self._correction_config = value
         self._corrector = None  # Invalidate cache to trigger recreation
+        self.reset()  # results computed with the previous configuration are stale
 
 
 class _OrbitContinuationService(_DynamicsServiceBase):
@@ -349,6 +350,7 @@ class _OrbitContinuationService(_DynamicsServiceBase):
         """
         self._continuation_config = value
         self._generator = None  # Invalidate cache to trigger recreation
+        self.reset()  # results computed with the previous configuration are stale
 
     @property
     def continuation_options(self) -> "OrbitContinuationOptions":
